@@ -7,6 +7,8 @@ import (
 	"runtime"
 	"sort"
 	"strings"
+	"testing"
+	"testing/synctest"
 	"time"
 
 	"github.com/anishathalye/porcupine"
@@ -23,7 +25,8 @@ type ContWork struct {
 	Cfg   int        `json:"cfg"`
 	Init  []int      `json:"init"`
 	Tasks [][]OpCall `json:"tasks"`
-	Shape string     `json:"shape"` // pair | triple | mix | ...
+	Shape string     `json:"shape"`           // pair | triple | mix | ...
+	Alpha int        `json:"alpha,omitempty"` // size of the key/value alphabet the run drew (accounting only)
 }
 
 func (w *ContWork) Sim() SimSpec { return w.P }
@@ -47,6 +50,8 @@ type callRec struct {
 	Op    OpCall `json:"op"`
 	Inv   uint64 `json:"inv"`
 	Ret   uint64 `json:"ret"`
+	At    int64  `json:"at,omitempty"` // simulated instant (ns since the bubble's epoch) at invocation
+	AtRet int64  `json:"at_ret,omitempty"`
 	Res   string `json:"res"`
 	Panic string `json:"panic,omitempty"`
 	Stack string `json:"-"`
@@ -60,7 +65,51 @@ type contHistory struct {
 	ObsPanic string
 	ObsInv   uint64
 	ObsRet   uint64
+	ObsAt    int64
 	ObsDone  bool
+}
+
+// bubbleEpoch is where testing/synctest's fake clock starts in every bubble.
+var bubbleEpoch = time.Date(2000, 1, 1, 0, 0, 0, 0, time.UTC).UnixNano()
+
+func simNow() int64 { return time.Now().UnixNano() - bubbleEpoch }
+
+// timedCfg reports whether the workload's results depend on simulated time (cache with
+// finite expirations): its sequential reference executions then run inside a bubble of their
+// own, each call at the simulated instant at which the concurrent run made it.
+func timedCfg(typ string, cfg int) bool { return typ == "cache" && cfg&cacheTimed != 0 }
+
+// postT is the worker's *testing.T (sequential reference bubbles are sub-tests of it).
+var postT *testing.T
+
+// inBubble runs f inside a fresh synctest bubble with no simulator active (the sync shims
+// pass straight through to the real primitives). It reports false if the bubble broke.
+func inBubble(f func()) (ok bool) {
+	ok = true
+	postT.Run("s", func(t *testing.T) {
+		defer func() {
+			if p := recover(); p != nil {
+				ok = false
+			}
+		}()
+		synctest.Test(t, func(t *testing.T) { f() })
+	})
+	return ok
+}
+
+// serialCall makes one call of a sequential reference execution. at >= 0: first sleep (simulated
+// time, inside a bubble) until that instant.
+func serialCall(inst instance, o OpCall, at int64) (res, pan string) {
+	if at >= 0 {
+		if d := at - simNow(); d > 0 {
+			time.Sleep(time.Duration(d))
+		}
+	}
+	if o.Op == "Tick" {
+		return "", ""
+	}
+	res, pan, _ = safeCall(inst, o)
+	return
 }
 
 //go:norace
@@ -124,9 +173,11 @@ func (w *ContWork) Exec(x *Exec) {
 			for j := range recs[ti] {
 				r := &recs[ti][j]
 				simrt.OpBegin()
+				r.At = simNow()
 				r.Inv = simrt.Stamp()
 				r.Res, r.Panic, r.Stack = safeCall(inst, r.Op)
 				r.Ret = simrt.Stamp()
+				r.AtRet = simNow()
 				simrt.OpEnd()
 				r.Done = true
 			}
@@ -136,7 +187,7 @@ func (w *ContWork) Exec(x *Exec) {
 	end := x.RunPhase()
 	h.Calls = snapshotRecs(recs)
 	for _, c := range h.Calls {
-		x.Note(fmt.Sprint(c.Task, c.Idx, c.Inv, c.Ret, c.Res, c.Panic != ""))
+		x.Note(fmt.Sprint(c.Task, c.Idx, c.Inv, c.Ret, c.At, c.AtRet, c.Res, c.Panic != ""))
 	}
 	if end == simrt.EndDeadlock {
 		stuckSet := map[string]bool{}
@@ -168,8 +219,10 @@ func (w *ContWork) Exec(x *Exec) {
 		var obs []string
 		var obsPanic string
 		var inv, ret uint64
+		var obsAt int64
 		done := false
 		x.Spawn("observer", func() {
+			obsAt = simNow()
 			inv = simrt.Stamp()
 			obs, obsPanic = safeObserve(inst)
 			ret = simrt.Stamp()
@@ -177,7 +230,7 @@ func (w *ContWork) Exec(x *Exec) {
 		})
 		end2 := x.RunPhase()
 		if end2 == simrt.EndOK {
-			h.Observed, h.ObsPanic, h.ObsInv, h.ObsRet, h.ObsDone = obs, obsPanic, inv, ret, done
+			h.Observed, h.ObsPanic, h.ObsInv, h.ObsRet, h.ObsDone, h.ObsAt = obs, obsPanic, inv, ret, done, obsAt
 			x.Note(strings.Join(obs, ";") + obsPanic)
 		} else if end2 == simrt.EndDeadlock {
 			x.Violate("unusable", "unusable:"+w.Type+":observer-blocked",
@@ -295,21 +348,41 @@ func (w *ContWork) serialPanics() (panics bool, exhaustive bool) {
 	for i, t := range w.Tasks {
 		lens[i] = len(t)
 	}
-	orders, complete := interleavings(lens, 5000)
-	for _, ord := range orders {
+	limit := 5000
+	timed := timedCfg(w.Type, w.Cfg)
+	if timed {
+		limit = 1000
+	}
+	orders, complete := interleavings(lens, limit)
+	one := func(ord []int) (panicked bool) {
 		inst := ad.build(w.Init, serialCfg(w.Type, w.Cfg))
 		pos := make([]int, len(w.Tasks))
 		for _, t := range ord {
 			o := w.Tasks[t][pos[t]]
 			pos[t]++
 			if o.Op == "Tick" {
+				if timed {
+					time.Sleep(10 * time.Millisecond) // simulated: we are inside a bubble
+				}
 				continue
 			}
 			if _, p, _ := safeCall(inst, o); p != "" {
-				return true, complete
+				return true
 			}
 		}
-		if _, p := safeObserve(inst); p != "" {
+		_, p := safeObserve(inst)
+		return p != ""
+	}
+	for _, ord := range orders {
+		bad := false
+		if timed {
+			if !inBubble(func() { bad = one(ord) }) {
+				return false, false
+			}
+		} else {
+			bad = one(ord)
+		}
+		if bad {
 			return true, complete
 		}
 	}
@@ -318,7 +391,7 @@ func (w *ContWork) serialPanics() (panics bool, exhaustive bool) {
 
 func serialCfg(typ string, cfg int) int {
 	if typ == "cache" {
-		return 0 // no janitor goroutine in sequential reference executions
+		return cfg &^ cacheJanitor // no janitor goroutine in sequential reference executions
 	}
 	return cfg
 }
@@ -333,6 +406,18 @@ func (w *ContWork) checkLinearizable(out *RunOut, h *contHistory) {
 	ad := adapterByName(w.Type)
 	calls := h.Calls
 	memo := map[string]string{}
+	timed := timedCfg(w.Type, w.Cfg)
+	if timed {
+		// every call of a timed program must sit at one simulated instant (no time passes while a
+		// task is runnable); if one does not, the sequential reference cannot be placed: inconclusive
+		for _, c := range calls {
+			if c.At != c.AtRet && c.Op.Op != "Tick" {
+				out.Count("lin_timed_call_spans_time", 1)
+				return
+			}
+		}
+		out.Count("lin_timed_programs", 1)
+	}
 	// seqResult replays the calls of seq (flat indices, comma separated) plus `next` on a fresh
 	// instance, sequentially, and returns the rendered result of `next`.
 	seqResult := func(seq []int, next int) string {
@@ -340,29 +425,47 @@ func (w *ContWork) checkLinearizable(out *RunOut, h *contHistory) {
 		if r, ok := memo[key]; ok {
 			return r
 		}
-		inst := ad.build(w.Init, serialCfg(w.Type, w.Cfg))
 		res := ""
-		for _, i := range seq {
-			if _, p, _ := safeCall(inst, calls[i].Op); p != "" {
-				res = "PANIC"
+		body := func() {
+			inst := ad.build(w.Init, serialCfg(w.Type, w.Cfg))
+			at := func(i int) int64 {
+				if !timed {
+					return -1
+				}
+				return calls[i].At
+			}
+			for _, i := range seq {
+				if _, p := serialCall(inst, calls[i].Op, at(i)); p != "" {
+					res = "PANIC"
+				}
+			}
+			if res == "" {
+				if next >= 0 {
+					r, p := serialCall(inst, calls[next].Op, at(next))
+					if p != "" {
+						res = "PANIC:" + p
+					} else {
+						res = "R:" + r
+					}
+				} else {
+					if timed {
+						serialCall(inst, OpCall{Op: "Tick"}, h.ObsAt)
+					}
+					o, p := safeObserve(inst)
+					if p != "" {
+						res = "PANIC:" + p
+					} else {
+						res = "R:" + strings.Join(o, ";")
+					}
+				}
 			}
 		}
-		if res == "" {
-			if next >= 0 {
-				r, p, _ := safeCall(inst, calls[next].Op)
-				if p != "" {
-					res = "PANIC:" + p
-				} else {
-					res = "R:" + r
-				}
-			} else {
-				o, p := safeObserve(inst)
-				if p != "" {
-					res = "PANIC:" + p
-				} else {
-					res = "R:" + strings.Join(o, ";")
-				}
+		if timed {
+			if !inBubble(body) {
+				res = "BUBBLE-BROKE"
 			}
+		} else {
+			body()
 		}
 		memo[key] = res
 		return res
@@ -447,10 +550,10 @@ func init() {
 	}
 }
 
-func genCall(r *simrt.Rand, ad *adapter, d *opDesc, task, idx int) OpCall {
+func genCall(r *simrt.Rand, ad *adapter, alpha int, d *opDesc, task, idx int) OpCall {
 	o := OpCall{Op: d.name}
 	if d.nargs >= 1 {
-		n := ad.alpha
+		n := alpha
 		if d.aRange > 0 {
 			n = d.aRange
 		}
@@ -471,11 +574,28 @@ func genCall(r *simrt.Rand, ad *adapter, d *opDesc, task, idx int) OpCall {
 	return o
 }
 
-func genInit(r *simrt.Rand, ad *adapter) []int {
-	n := []int{0, 1, 3, 7, 2}[r.Intn(5)]
+// drawAlpha draws the size of the key/value alphabet of one run: mostly the small default
+// (collisions on purpose), sometimes 5 or 8 so that deeper trees, longer lists and larger
+// heaps - and the branches only they reach - are exercised too.
+func drawAlpha(r *simrt.Rand, ad *adapter) int {
+	switch r.Intn(10) {
+	case 0, 1:
+		return 5
+	case 2:
+		return maxAlpha
+	}
+	return ad.alpha
+}
+
+func genInit(r *simrt.Rand, ad *adapter, alpha int) []int {
+	sizes := []int{0, 1, 3, 7, 2}
+	if alpha > ad.alpha {
+		sizes = []int{0, 1, 3, 7, 2, 5, 12, 15}
+	}
+	n := sizes[r.Intn(len(sizes))]
 	init := make([]int, n)
 	for i := range init {
-		init[i] = 1 + r.Intn(ad.alpha)
+		init[i] = 1 + r.Intn(alpha)
 		if ad.name == "trie" || ad.name == "cache" {
 			init[i]--
 		}
@@ -494,7 +614,9 @@ func genC01(r *simrt.Rand, tier string, idx uint64) Workload {
 	ad := ps.ad
 	w.Type = ad.name
 	w.Cfg = r.Intn(ad.ncfg)
-	w.Init = genInit(r, ad)
+	alpha := drawAlpha(r, ad)
+	w.Alpha = alpha
+	w.Init = genInit(r, ad, alpha)
 	switch {
 	case shapeDraw < pairCut:
 		w.Shape = "pair"
@@ -502,13 +624,13 @@ func genC01(r *simrt.Rand, tier string, idx uint64) Workload {
 		if r.Bool(0.5) {
 			a, b = b, a
 		}
-		w.Tasks = [][]OpCall{{genCall(r, ad, &ad.ops[a], 0, 0)}, {genCall(r, ad, &ad.ops[b], 1, 0)}}
+		w.Tasks = [][]OpCall{{genCall(r, ad, alpha, &ad.ops[a], 0, 0)}, {genCall(r, ad, alpha, &ad.ops[b], 1, 0)}}
 	case shapeDraw < tripleCut:
 		w.Shape = "triple"
 		ops := []int{ps.a, ps.b, r.Intn(len(ad.ops))}
 		p := r.Perm(3)
 		for t := 0; t < 3; t++ {
-			w.Tasks = append(w.Tasks, []OpCall{genCall(r, ad, &ad.ops[ops[p[t]]], t, 0)})
+			w.Tasks = append(w.Tasks, []OpCall{genCall(r, ad, alpha, &ad.ops[ops[p[t]]], t, 0)})
 		}
 	default:
 		w.Shape = "mix"
@@ -529,19 +651,15 @@ func genC01(r *simrt.Rand, tier string, idx uint64) Workload {
 				default:
 					d = &ad.ops[r.Intn(len(ad.ops))]
 				}
-				calls = append(calls, genCall(r, ad, d, t, j))
+				calls = append(calls, genCall(r, ad, alpha, d, t, j))
 			}
 			w.Tasks = append(w.Tasks, calls)
 		}
 	}
-	if ad.name == "cache" && w.Cfg == 1 {
-		// the janitor only becomes a concurrent party when its ticker fires: let one task sleep over a tick
-		t := r.Intn(len(w.Tasks))
-		pos := r.Intn(len(w.Tasks[t]) + 1)
-		calls := append([]OpCall(nil), w.Tasks[t][:pos]...)
-		calls = append(calls, OpCall{Op: "Tick"})
-		calls = append(calls, w.Tasks[t][pos:]...)
-		w.Tasks[t] = calls
+	if ad.name == "cache" && w.Cfg&(cacheJanitor|cacheTimed) != 0 {
+		// the janitor only becomes a concurrent party when its ticker fires, and stored entries only
+		// expire when simulated time passes: let tasks sleep 10 ms at drawn places of their programs
+		insertTicks(r, w, 1+r.Intn(2))
 	}
 	total := 0
 	for _, t := range w.Tasks {
@@ -553,6 +671,18 @@ func genC01(r *simrt.Rand, tier string, idx uint64) Workload {
 	return w
 }
 
+// insertTicks puts n "Tick" pseudo-calls (10 ms of simulated time) at drawn places.
+func insertTicks(r *simrt.Rand, w *ContWork, n int) {
+	for k := 0; k < n; k++ {
+		t := r.Intn(len(w.Tasks))
+		pos := r.Intn(len(w.Tasks[t]) + 1)
+		calls := append([]OpCall(nil), w.Tasks[t][:pos]...)
+		calls = append(calls, OpCall{Op: "Tick"})
+		calls = append(calls, w.Tasks[t][pos:]...)
+		w.Tasks[t] = calls
+	}
+}
+
 func genC02(r *simrt.Rand, tier string, idx uint64) Workload {
 	w := &ContWork{Mode: "c02"}
 	ad := adapters[int(idx%uint64(len(adapters)))]
@@ -560,10 +690,24 @@ func genC02(r *simrt.Rand, tier string, idx uint64) Workload {
 	w.Cfg = 0
 	if ad.name != "cache" {
 		w.Cfg = r.Intn(ad.ncfg)
+	} else {
+		// never the janitor (its purges are not calls of the program); half of the cache programs are
+		// timed: entries with finite expirations, simulated time passing, expired-but-unpurged entries
+		w.Cfg = []int{0, 0, cacheTimed, cacheTimed | cachePreAged}[r.Intn(4)]
 	}
-	n := []int{0, 1, 2, 2, 3}[r.Intn(5)]
+	// alphabet: 2-3 values, collisions on purpose (thorough: sometimes 4-5)
+	alpha := 2 + r.Intn(2)
+	if tier == "thorough" && r.Intn(5) == 0 {
+		alpha = 4 + r.Intn(2)
+	}
+	w.Alpha = alpha
+	sizes := []int{0, 1, 2, 2, 3}
+	if tier == "thorough" {
+		sizes = []int{0, 1, 2, 2, 3, 4, 6}
+	}
+	n := sizes[r.Intn(len(sizes))]
 	for i := 0; i < n; i++ {
-		v := 1 + r.Intn(ad.alpha)
+		v := 1 + r.Intn(alpha)
 		if ad.name == "trie" || ad.name == "cache" {
 			v--
 		}
@@ -582,22 +726,16 @@ func genC02(r *simrt.Rand, tier string, idx uint64) Workload {
 	}
 	sh := shapes[r.Intn(len(shapes))]
 	w.Shape = fmt.Sprint(sh)
-	alpha := 2 + r.Intn(2) // 2-3 value alphabet: collisions on purpose
 	for t, n := range sh {
 		var calls []OpCall
 		for j := 0; j < n; j++ {
 			d := single[r.Intn(len(single))]
-			o := genCall(r, ad, d, t, j)
-			if d.nargs >= 1 && d.aRange == 0 {
-				base := 0
-				if o.A >= 1 && !(ad.name == "trie" || ad.name == "cache") {
-					base = 1
-				}
-				o.A = base + (o.A-base)%alpha
-			}
-			calls = append(calls, o)
+			calls = append(calls, genCall(r, ad, alpha, d, t, j))
 		}
 		w.Tasks = append(w.Tasks, calls)
+	}
+	if timedCfg(w.Type, w.Cfg) {
+		insertTicks(r, w, 1+r.Intn(2))
 	}
 	total := 0
 	for _, t := range w.Tasks {
